@@ -5,6 +5,7 @@ package main
 
 import (
 	"fmt"
+	"go/types"
 	"math/big"
 	"os"
 	"path/filepath"
@@ -18,6 +19,7 @@ type Clause struct {
 	Expr *SNode
 	List []*SNode // for modifies
 	Name string   // ghost var name / label
+	Tag  string   // proof group ("behavior"): the clause is used only when verifying that group
 	Line int
 	File string
 }
@@ -81,6 +83,11 @@ type FuncContract struct {
 	Wraps     bool // signed arithmetic wraps silently (no overflow obligations)
 	NoTerm    bool
 	NoMerge   bool
+	InstName  string
+	GhostParams []string
+	Full      *FuncContract // for a group-filtered copy: the complete contract
+	InstParam string      // for "f@g" contracts: the function-typed parameter ...
+	InstFunc  *types.Func // ... and the declared function it is bound to
 	Traced    []string
 	Ghosts    []*Clause
 	File      string
@@ -114,7 +121,7 @@ var clauseKeywords = map[string]bool{
 	"decreases": true, "loop": true, "invariant": true, "at": true, "assert": true, "ghost": true,
 	"mode": true, "trusted": true, "inline": true, "pure": true, "axiom": true, "global": true,
 	"type": true, "lemma": true, "props": true, "wraps": true, "unroll": true, "uses": true,
-	"guarded_by": true, "noterm": true, "nomerge": true, "traced": true, "recspec": true, "opaque": true, "assume": true, "havoc": true,
+	"guarded_by": true, "noterm": true, "nomerge": true, "traced": true, "bind": true, "ghostparam": true, "recspec": true, "opaque": true, "assume": true, "havoc": true,
 	"split": true, "stdlib": true, "defspec": true, "ih": true, "apply": true,
 }
 
@@ -152,6 +159,9 @@ func parseContractFile(path string, pkg string, pc *PkgContracts) error {
 		if k := strings.IndexAny(t, " \t:("); k >= 0 {
 			first = t[:k]
 		}
+		if k := strings.Index(first, "["); k > 0 {
+			first = first[:k]
+		}
 		if clauseKeywords[first] || len(clauses) == 0 {
 			clauses = append(clauses, rawLine{t, i + 1})
 		} else {
@@ -164,8 +174,9 @@ func parseContractFile(path string, pkg string, pc *PkgContracts) error {
 	var curGlobal *GlobalSpec
 	var curType *TypeSpec
 	var curSpec *SpecFunc
+	curTag := ""
 	mk := func(kind, src string, line int) (*Clause, error) {
-		c := &Clause{Kind: kind, Src: src, Line: line, File: path}
+		c := &Clause{Kind: kind, Src: src, Line: line, File: path, Tag: curTag}
 		e, err := parseSpec(src)
 		if err != nil {
 			return nil, fmt.Errorf("%s:%d: %v", path, line, err)
@@ -181,6 +192,12 @@ func parseContractFile(path string, pkg string, pc *PkgContracts) error {
 			kw, rest = t[:k], strings.TrimSpace(t[k+1:])
 		}
 		kw = strings.TrimSuffix(kw, ":")
+		tag := ""
+		if k := strings.Index(kw, "["); k > 0 && strings.HasSuffix(kw, "]") {
+			tag = kw[k+1 : len(kw)-1]
+			kw = kw[:k]
+		}
+		curTag = tag
 		bad := func(f string, a ...interface{}) error {
 			return fmt.Errorf("%s:%d: %s", path, rl.line, fmt.Sprintf(f, a...))
 		}
@@ -313,6 +330,18 @@ func parseContractFile(path string, pkg string, pc *PkgContracts) error {
 			for _, n := range strings.Fields(strings.ReplaceAll(rest, ",", " ")) {
 				cur.Traced = append(cur.Traced, n)
 			}
+		case "ghostparam":
+			// ghostparam n: an extra logical parameter; callers supply it through a ghost or local variable of that name
+			for _, n := range strings.Fields(strings.ReplaceAll(rest, ",", " ")) {
+				cur.GhostParams = append(cur.GhostParams, n)
+			}
+		case "bind":
+			// bind <param> = <declared function>: this contract describes the instantiation f@g of a function-valued parameter
+			f := strings.Fields(strings.ReplaceAll(rest, "=", " "))
+			if cur == nil || len(f) != 2 {
+				return bad("bind param = function")
+			}
+			cur.InstParam, cur.InstName = f[0], f[1]
 		case "noterm":
 			cur.NoTerm = true
 		case "nomerge":
@@ -366,7 +395,7 @@ func parseContractFile(path string, pkg string, pc *PkgContracts) error {
 			if e.Op != "call" {
 				return bad("apply needs lemma(args)")
 			}
-			curAnchor.Clauses = append(curAnchor.Clauses, &Clause{Kind: "apply", Src: rest, Expr: e, Line: rl.line, File: path})
+			curAnchor.Clauses = append(curAnchor.Clauses, &Clause{Kind: "apply", Src: rest, Expr: e, Line: rl.line, File: path, Tag: tag})
 		case "requires", "ensures", "panics_if", "invariant", "decreases", "assert", "assume":
 			c, err := mk(kw, rest, rl.line)
 			if err != nil {
@@ -397,7 +426,7 @@ func parseContractFile(path string, pkg string, pc *PkgContracts) error {
 				return bad("%s not allowed here", kw)
 			}
 		case "modifies":
-			c := &Clause{Kind: "modifies", Src: rest, Line: rl.line, File: path}
+			c := &Clause{Kind: "modifies", Src: rest, Line: rl.line, File: path, Tag: tag}
 			for _, part := range splitTop(rest, ',') {
 				part = strings.TrimSpace(part)
 				if part == "" || part == "nothing" {
@@ -472,7 +501,7 @@ func parseContractFile(path string, pkg string, pc *PkgContracts) error {
 			cur.Split = sp
 		case "ghost", "havoc":
 			// ghost name = expr   |  split expr in lo..hi
-			c := &Clause{Kind: kw, Src: rest, Line: rl.line, File: path}
+			c := &Clause{Kind: kw, Src: rest, Line: rl.line, File: path, Tag: tag}
 			if kw == "ghost" {
 				k := strings.Index(rest, "=")
 				if k < 0 {
